@@ -272,6 +272,7 @@ partial def loop (h : IO.FS.Stream) (out : IO.FS.Stream) (float : Bool) : IO Uni
   match secs with
   | [["mode", "float"]] => out.putStrLn "ok"; loop h out true
   | [["mode", "rat"]] => out.putStrLn "ok"; loop h out false
+  | [["probe", _, _]] => out.putStrLn "ok"; loop h out float      -- harness-side oracle switches
   | _ =>
     let r := if float then runOp (α := Float) secs else runOp (α := Rat) secs
     let r := if r == "fallthrough" then (if float then runOp2 (α := Float) secs else runOp2 (α := Rat) secs) else r
